@@ -93,7 +93,7 @@ def run_scenario(run: Run, scen: dict, rng: random.Random):
         syms = []
         try:
             for d in inits:
-                syms.append(P.TensorParameter(*shape, initializer=build_init(d), learnable=learnable))
+                syms.append(P.TensorParameter(*shape, initializer=build_init(d), learnable=d.get("learnable", learnable)))
         except ValueError:
             run.feature("shape_rejected", True)
             return
@@ -111,15 +111,17 @@ def run_scenario(run: Run, scen: dict, rng: random.Random):
                 for s, d in zip(syms, inits):
                     pt, idx = comp.state.retrieve_compiled_parameter(s)
                     run.evaluations += 1
-                    if fold and len(tps) > 1 and pt.num_folds != len(tps):
-                        run.violation("not-folded", scen, f"expected one folded tensor with {len(tps)} slices, found {pt.num_folds}", no_failing_input=True, broken="harness assumption on _fold_parameters")
+                    lrn = d.get("learnable", learnable)
+                    mates = sum(1 for x in inits if x.get("learnable", learnable) == lrn)  # learnable and frozen tensors are folded apart
+                    if fold and len(tps) > 1 and pt.num_folds != mates:
+                        run.violation("not-folded", scen, f"expected one folded tensor with {mates} slices, found {pt.num_folds}", no_failing_input=True, broken="harness assumption on _fold_parameters")
                         return
                     why = verify_slice(pt._ptensor[idx], d, shape, learnable)
                     if why:
                         run.violation("init-wrong", dict(scen, reset=rep, param=inits.index(d)), f"{why} (fold={fold}, group of {len(inits)}, after {rep} resets)")
                         return
-                    if pt._ptensor.requires_grad != learnable:
-                        run.violation("requires-grad", scen, f"requires_grad={pt._ptensor.requires_grad} for learnable={learnable}")
+                    if pt._ptensor.requires_grad != d.get("learnable", learnable):
+                        run.violation("requires-grad", scen, f"requires_grad={pt._ptensor.requires_grad} for a parameter declared learnable={d.get('learnable', learnable)} (fold={fold}, group of {len(inits)} with flags {[x.get('learnable', learnable) for x in inits]})")
                         return
                     run.exact += 1
         except Exception as e:  # noqa: BLE001
@@ -132,7 +134,7 @@ def run_scenario(run: Run, scen: dict, rng: random.Random):
         syms, sums = [], []
         try:
             for d in inits:
-                tpar = P.TensorParameter(K, Kin, initializer=build_init(d), learnable=learnable)
+                tpar = P.TensorParameter(K, Kin, initializer=build_init(d), learnable=d.get("learnable", learnable))
                 syms.append(tpar)
                 sums.append(SumLayer(Kin, K, weight=P.Parameter.from_input(tpar)))
         except ValueError:
@@ -157,8 +159,8 @@ def run_scenario(run: Run, scen: dict, rng: random.Random):
                     if why:
                         run.violation("init-wrong", dict(scen, reset=rep), f"{why} (circuit level, fold={fold}, {len(inits)} sum layers, after {rep} resets)")
                         return
-                    if pt._ptensor.requires_grad != learnable:
-                        run.violation("requires-grad", scen, f"requires_grad={pt._ptensor.requires_grad} for learnable={learnable}")
+                    if pt._ptensor.requires_grad != d.get("learnable", learnable):
+                        run.violation("requires-grad", scen, f"requires_grad={pt._ptensor.requires_grad} for a parameter declared learnable={d.get('learnable', learnable)} (circuit level, fold={fold})")
                         return
                     run.exact += 1
         except Exception as e:  # noqa: BLE001
@@ -176,7 +178,10 @@ def check(run: Run, tier: str, seed: int):
         group = srng.choice([1, 2, 3, 4])
         same = srng.random() < 0.4
         first = rand_init(srng, shape)
-        inits = [first if same else rand_init(srng, shape) for _ in range(group)]
+        inits = [dict(first) if same else rand_init(srng, shape) for _ in range(group)]
+        if srng.random() < 0.4:
+            for d in inits:  # learnable and frozen parameters of one shape side by side
+                d["learnable"] = srng.random() < 0.5
         scen = {"level": level, "shape": shape, "inits": inits, "fold": srng.random() < 0.7,
                 "learnable": srng.random() < 0.7, "optimize": srng.random() < 0.3}
         run.case(scen, nontrivial=True, sample=scen if i < 2 else None,
